@@ -298,6 +298,9 @@ class Chain(Part):
                               max_size=4),
             "xml": st.booleans(),
             "eol": st.sampled_from(["\n", "\n", "\r\n", "\r"]),
+            # XML files may be in another encoding (declared)
+            "file_encoding": st.sampled_from([None, None, "iso-8859-1",
+                                              "utf-16"]),
             # an earlier failure inside another template's macro that an
             # on-error element has handled: it must leave no trace
             "handled_before": st.sampled_from([False, False, True,
@@ -329,9 +332,12 @@ class Chain(Part):
             f0[2] = [(e, o + len(pre)) for e, o in f0[2]]
             files.append(["bad.pt", "<p>${boom('ValueError', 'H')}</p>", []])
         if case["xml"]:
+            enc = case.get("file_encoding")
+            decl = '<?xml version="1.0"?>\n' if not enc else \
+                '<?xml version="1.0" encoding="%s"?>\n<!-- caf\u00e9 -->' % enc
             for f in files:
-                f[1] = '<?xml version="1.0"?>\n' + f[1]
-                f[2] = [(e, o + 22) for e, o in f[2]]
+                f[1] = decl + f[1]
+                f[2] = [(e, o + len(decl)) for e, o in f[2]]
         return files
 
     def setup_shard(self, tier, shard):
@@ -440,10 +446,18 @@ class Chain(Part):
             # (XML mode keeps line endings as written and counts lines by
             # line feeds: a lone CR is not generated there)
             eol = "\r\n"
+        enc = (case.get("file_encoding") if case["xml"] else None) or \
+            "utf-8"
+        if enc != "utf-8" and any(ord(c) > 255 for f_ in files
+                                  for c in f_[1]) and enc != "utf-16":
+            enc = "utf-8"      # (text outside the declared repertoire)
         for name, src, _ in files:
-            with open(os.path.join(d, name), "w", encoding="utf-8",
-                      newline="") as f:
-                f.write(src.replace("\n", eol))
+            text = src.replace("\n", eol)
+            if enc == "utf-8":
+                text = text.replace(' encoding="%s"' % case.get(
+                    "file_encoding"), "")
+            with open(os.path.join(d, name), "wb") as f:
+                f.write(text.encode(enc))
         detail = {"files": [(f[0], f[1]) for f in files],
                   "class": case["cls"]}
         log = []
